@@ -25,8 +25,8 @@ HARNESSES = [
 ]
 
 RULE = ("cctype: every argument in [-1,255] x 14 functions; cwctype: 0..0x2FF, surrogate/BMP-end/plane-end windows, WEOF; "
-        "cstring/cwchar: ALL strings of length <= L over {a, b, 0x80 (narrow) / -5 (wide)} (L = 4 quick for one-string and "
-        "narrow two-string ops, 3 for wide two-string ops; thorough 5/4), all pairs, all counts 0..len+2, with exact-size and "
+        "cstring/cwchar: ALL strings of length <= L over {a, b, 0x80 (narrow) / -5 (wide)} (quick: L = 4, and 3 for the "
+        "two-string ops that also take a count; thorough 5/4), all pairs, all counts 0..len+2, with exact-size and "
         "oversize destinations, elements after the terminator, unterminated arrays where C allows them; raw buffers over "
         "{0, a, 0x80} for the mem* family; memmove: every (dest, src, count) placement inside buffers of length <= 12 with count <= 6, i.e. every overlap offset -6..6 (thorough: 16/8); "
         "seeded random long strings; a fixed table evaluated by the constant evaluator; "
@@ -74,7 +74,7 @@ def gen_family(out, wide, tier, rng):
         names = {k: ("wcs" + k[3:] if k.startswith("str") else "w" + k) for k in names}
     nm = names
     l1 = (4 if quick else 5)                       # one-string ops
-    l2 = (3 if quick else 4) if wide else (4 if quick else 5)   # two-string ops
+    l2 = (4 if quick else 5)                       # two-string ops
     l2n = (3 if quick else 4)                      # two-string ops with a count
     S1 = strings(alpha, l1)
     S2 = strings(alpha, l2)
@@ -222,8 +222,25 @@ def gen_family(out, wide, tier, rng):
             out.append(f"{nm['memmove']} {L(ra)} {rng.randint(0, size - n2)} {rng.randint(0, size - n2)} {n2}")
 
 
+# witnesses of the seven repaired defects and the inputs that exposed the hand-made mutations (NOTES.md); run first
+REGRESSION = [
+    "strstr 5 97 98 99 100 0 3 98 99 0", "strstr 3 97 98 0 1 0", "wcsstr 5 97 98 99 100 0 3 98 99 0",
+    "strstr 5 97 97 97 98 0 4 97 97 98 0",
+    "strncpy 5 9 9 9 9 9 3 97 98 0 4", "wcsncpy 5 9 9 9 9 9 3 97 98 0 4", "strncpy 1 201 1 0 1", "strncpy 0 0 0",
+    "wmemcpy 4 9 9 9 9 3 1 0 2 3",
+    "strcmp 2 128 0 2 97 0", "strncmp 2 128 0 2 97 0 1", "strcmp 1 0 2 128 0",
+    "wcscmp 2 2147483647 0 2 -2147483648 0", "wcsncmp 2 -2147483648 0 2 2147483647 0 1", "wcscmp 1 0 2 -5 0",
+    "memcmp 3 97 0 98 3 97 0 99 3", "wmemcmp 3 97 0 98 3 97 0 99 3", "memcmp 1 0 1 128 1",
+    "strpbrk 4 97 98 99 0 2 100 0", "wcspbrk 4 97 98 99 0 2 100 0",
+    "strncat 4 97 0 9 9 2 98 99 2", "wcsncat 4 97 0 9 9 2 98 99 2", "strncat 2 0 201 1 97 1",
+    "strncmp 2 0 97 3 0 98 128 6", "strncmp 1 97 1 98 1", "memmove 3 1 2 3 1 0 2", "wmemmove 3 1 2 3 1 0 2",
+    "strrchr 2 1 0 1", "strchr 1 0 0", "strspn 2 97 0 2 97 0", "memchr 1 0 128 1", "memset 1 201 -1 1",
+    "isxdigit 103", "iswcntrl 31", "islower 122", "lldiv -7 2", "strlen 2 98 0",
+]
+
+
 def gen(tier, rng):
-    out = []
+    out = list(REGRESSION)
     quick = tier in ("quick", "search")
     # ---- <cctype>: the whole argument range
     for f in CLASS:
